@@ -4,6 +4,9 @@ import (
 	"context"
 	"errors"
 	"fmt"
+	"github.com/prometheus/prometheus/storage"
+	"github.com/thanos-community/promql-engine/api"
+	"github.com/thanos-community/promql-engine/engine"
 	"os"
 	"runtime"
 	"strings"
@@ -66,6 +69,45 @@ func engineGoroutines() []string {
 
 const execBound = 15 * time.Second
 
+// promCancelErr: a query evaluated by the Prometheus engine (fallback path, also inside a
+// remote engine) reports the end of its context as ErrQueryCanceled / ErrQueryTimeout.
+func promCancelErr(err error) bool {
+	var c promql.ErrQueryCanceled
+	var t promql.ErrQueryTimeout
+	return errors.As(err, &c) || errors.As(err, &t)
+}
+
+// sessionHook, when set by a sweep over a distributed engine, points the storages of the
+// remote engines at views of the session of the execution that is about to start.
+var sessionHook func(*memstore.Session)
+
+// swapQueryable is a storage.Queryable whose target can be replaced between executions.
+type swapQueryable struct{ cur atomic.Value }
+
+func (q *swapQueryable) Querier(ctx context.Context, mint, maxt int64) (storage.Querier, error) {
+	return q.cur.Load().(*memstore.Session).Querier(ctx, mint, maxt)
+}
+
+// distributedForSweep builds a distributed engine over the partitions of the case; the
+// remote engines read through views of the current execution's session, so their storage
+// callbacks are counted, faulted and accounted together with the coordinator's.
+func distributedForSweep(c *core.Case) (Engine, func(*memstore.Session)) {
+	parts := Partition(c)
+	swaps := make([]*swapQueryable, len(parts))
+	remotes := make([]api.RemoteEngine, len(parts))
+	for i := range parts {
+		swaps[i] = &swapQueryable{}
+		swaps[i].cur.Store(parts[i].Session())
+		remotes[i] = engine.NewLocalEngine(EngineOpts(c.Lookback, c.Opt, true), swaps[i])
+	}
+	eng := engine.NewDistributedEngine(EngineOpts(c.Lookback, c.Opt, true), api.NewStaticEndpoints(remotes))
+	return eng, func(s *memstore.Session) {
+		for i := range parts {
+			swaps[i].cur.Store(s.View(parts[i]))
+		}
+	}
+}
+
 // sweepEqual is the result comparison of the running sweep (tie-aware, see equalOrTie).
 var sweepEqual func(a, b *oracle.Res, tol oracle.Tol) string
 
@@ -76,6 +118,9 @@ func runFaulted(c *core.Case, eng Engine, st *memstore.Store, faults []core.Faul
 	out := faultOutcome{}
 	sess := NewSession(st, c).WithFaults(faults...)
 	out.sess = sess
+	if sessionHook != nil {
+		sessionHook(sess)
+	}
 	parent := context.Background()
 	var ctx context.Context
 	var cancel context.CancelFunc
@@ -280,6 +325,14 @@ func sweep(c *core.Case, kinds []string, classes []string, judge func(kind strin
 	sweepEqual = func(a, b *oracle.Res, tol oracle.Tol) string { return equalOrTie(c, expr, st, a, b, tol) }
 	snap := st.Dump()
 	eng := NewEngine(c.Lookback, c.Opt, c.Fallback)
+	if strings.Contains(c.Note, "dist") && c.NParts > 0 {
+		// the same sweep over a distributed plan: coalesce over remote executions
+		var hook func(*memstore.Session)
+		eng, hook = distributedForSweep(c)
+		sessionHook = hook
+		defer func() { sessionHook = nil }()
+		feats = append(feats, "distributed")
+	}
 	base := runFaulted(c, eng, st, nil, 0)
 	if base.createEr != nil {
 		return core.Verdict{Status: "skip", Detail: "not created: " + base.createEr.Error(), Features: feats}
@@ -519,10 +572,10 @@ func init() {
 					// the complete evaluation fails as well; reporting that failure is not a partial result
 					return ""
 				}
-				if o.fired && !(errors.Is(o.res.Err, context.Canceled) || errors.Is(o.res.Err, context.DeadlineExceeded) || strings.Contains(o.res.Err.Error(), "context canceled")) {
+				if o.fired && !(errors.Is(o.res.Err, context.Canceled) || errors.Is(o.res.Err, context.DeadlineExceeded) || strings.Contains(o.res.Err.Error(), "context canceled") || promCancelErr(o.res.Err)) {
 					return fmt.Sprintf("after cancellation Exec returned an error that is not the context's error: %v", o.res.Err)
 				}
-				if !o.fired && !(kind == "blockdl" && errors.Is(o.res.Err, context.DeadlineExceeded)) {
+				if !o.fired && !(kind == "blockdl" && (errors.Is(o.res.Err, context.DeadlineExceeded) || promCancelErr(o.res.Err))) {
 					return fmt.Sprintf("no cancellation happened, but Exec failed: %v", o.res.Err)
 				}
 				return ""
@@ -540,9 +593,21 @@ func init() {
 		if strings.Contains(c.Note, "deadline") {
 			st := memstore.New(c.Series)
 			eng := NewEngine(c.Lookback, c.Opt, false)
+			if strings.Contains(c.Note, "dist") && c.NParts > 0 {
+				var hook func(*memstore.Session)
+				eng, hook = distributedForSweep(c)
+				sessionHook = hook
+				defer func() { sessionHook = nil }()
+			}
 			base := runFaulted(c, eng, st, nil, 0)
+			if base.createEr != nil {
+				return v
+			}
 			for _, us := range []int{1, 20, 100, 400, 1500} {
 				o := runFaulted(c, eng, st, nil, us)
+				if o.createEr != nil {
+					break
+				}
 				if !o.returned {
 					return violation("%sdeadline %dus: Exec did not return within %s:\n%s", caseHdr(c), us, execBound, o.dump)
 				}
@@ -550,7 +615,7 @@ func init() {
 					if d := sweepEqual(o.res, base.res, tol); d != "" {
 						return violation("%sdeadline %dus: successful result differs from the complete result: %s", caseHdr(c), us, d)
 					}
-				} else if base.res.Err == nil && !errors.Is(o.res.Err, context.DeadlineExceeded) && !strings.Contains(o.res.Err.Error(), "deadline exceeded") {
+				} else if base.res.Err == nil && !errors.Is(o.res.Err, context.DeadlineExceeded) && !strings.Contains(o.res.Err.Error(), "deadline exceeded") && !promCancelErr(o.res.Err) {
 					return violation("%sdeadline %dus: Exec returned an error that is not the context's: %v", caseHdr(c), us, o.res.Err)
 				}
 				if !WaitQuiet(3 * time.Second) {
